@@ -1,4 +1,5 @@
 import LexVerif.Proof.ParseNumberC11Prefix
+import LexVerif.Proof.SepBasic
 /-!
 # Proof.ParseNumberC11SepPeek — C11 (B) with digit separators: one `peek` under truncation of the buffer
 
@@ -274,5 +275,88 @@ theorem Adm.of_lt {c : Cfg} {k : Comp} {n : Nat} {b : Bytes} (hlt : b.index < n)
     (hs : ∀ x, b.slc[b.index]? = some x → c.isSep x = false) : Adm c k n b := by
   refine ⟨by omega, fun x hx => ⟨fun h => ?_, fun _ _ => hlt⟩⟩
   rw [hs x hx] at h; cases h
+
+/-! ## a `peek` that comes to rest on a separator stays there -/
+
+/-- a non-consecutive predicate that skipped onto another separator does not skip that one (same position class):
+only I+L at the first position with a non-digit before it can skip onto a separator at all -/
+theorem holds_land_sep (c : Cfg) (p : Pred) (first : Bool) (n1 n2 : Nbr) (x y : Nat)
+    (hpc : p.consecutive = false) (h : p.holds c n1 first = true) (hx : n1.next = some x) (hs : c.isSep x = true)
+    (hy : n2.prev = some y) (hsy : c.isSep y = true) (hdx : c.isDigit x = false) (hdy : c.isDigit y = false) :
+    p.holds c n2 first = false := by
+  obtain ⟨pv1, nx1, pc1, nc1⟩ := n1
+  obtain ⟨pv2, nx2, pc2, nc2⟩ := n2
+  simp only at hx hy
+  subst hx hy
+  cases p <;> cases first <;>
+    simp only [Pred.consecutive, Pred.holds, Bool.false_eq_true, if_false, if_true, reduceCtorEq] at hpc h ⊢
+  all_goals (cases pv1 <;> simp_all)
+
+theorem any_of_skip_pred (f : SepFlags) (p : Pred) (h : f.skip = .pred p) : f.any = true := by
+  obtain ⟨i, l, t, cc⟩ := f
+  cases i <;> cases l <;> cases t <;> cases cc <;> simp [SepFlags.skip] at h <;> rfl
+
+/-- an iterator with a separator predicate is not contiguous: its `current_count()` is its digit count -/
+theorem iterContiguous_of_pred (c : Cfg) (k : Comp) (p : Pred) (h : c.skip k = .pred p) : c.iterContiguous k = false := by
+  cases k with
+  | special =>
+    simp only [Cfg.skip] at h
+    split at h
+    · next hs => simp [Cfg.iterContiguous, hs]
+    · cases h
+  | integer => simp [Cfg.iterContiguous, any_of_skip_pred _ p h]
+  | fraction => simp [Cfg.iterContiguous, any_of_skip_pred _ p h]
+  | exponent => simp [Cfg.iterContiguous, any_of_skip_pred _ p h]
+
+theorem getPrev_succ (s : List Nat) (i : Nat) : getPrev s (i + 1) = s[i]? := by
+  simp [getPrev]
+
+/-- `peek` again from the state a `peek` returned with a separator under the cursor: nothing moves -/
+theorem peek_idem (c : Cfg) (k : Comp) (b0 b : Bytes) (x : Nat) (hv : Bytes.Valid b0)
+    (hp : peek c k b0 = .ok (some x, b)) (hs : c.isSep x = true) (hnd : ∀ y, c.isSep y = true → c.isDigit y = false) :
+    peek c k b = .ok (some x, b) := by
+  obtain ⟨p1, p2, p3, p4⟩ := peek_at c k b0 b (some x) hv hp
+  have hslc : b.slc = b0.slc := by rw [p1]; rfl
+  have hxb : b.slc[b.index]? = some x := by rw [hslc]; exact p2.symm
+  unfold peek at hp ⊢
+  cases hsk : c.skip k with
+  | noskip => simp only [hxb]
+  | unreachable => simp [hsk] at hp
+  | pred p =>
+    simp only [hsk, Except.ok.injEq] at hp ⊢
+    have hnc : c.iterContiguous k = false := iterContiguous_of_pred c k p hsk
+    have hcnt : b.iterCount c k = b0.iterCount c k := by
+      rw [p1]; unfold Bytes.iterCount Bytes.at; simp only [hnc, Bool.false_eq_true, if_false]
+    rw [hcnt]
+    unfold peekPred at hp ⊢
+    simp only [hxb, hs, if_true]
+    -- the second decision
+    have key : p.holds c (nbr c b.slc b.index) (b0.iterCount c k == 0) = false := by
+      cases hg : b0.slc[b0.index]? with
+      | none => simp [hg] at hp
+      | some v =>
+        simp only [hg] at hp
+        by_cases hsv : c.isSep v = true
+        · simp only [hsv, if_true] at hp
+          by_cases hh : p.holds c (nbr c b0.slc b0.index) (b0.iterCount c k == 0) = true
+          · simp only [hh, if_true, Prod.mk.injEq] at hp
+            by_cases hpc : p.consecutive = true
+            · exfalso
+              simp only [hpc, if_true] at hp
+              have := Sep.countSeps_stop c (b0.slc.drop (b0.index + 1)) x (by rw [List.getElem?_drop]; exact hp.1)
+              rw [hs] at this; cases this
+            · have hpc : p.consecutive = false := by simpa using hpc
+              simp only [hpc, Bool.false_eq_true, if_false] at hp
+              have hbi : b.index = b0.index + 1 := by rw [← hp.2]
+              apply holds_land_sep c p _ (nbr c b0.slc b0.index) _ x v hpc hh
+                (by simp only [nbr]; exact hp.1) hs ?_ hsv (hnd x hs) (hnd v hsv)
+              simp only [nbr, hbi, getPrev_succ, hslc, hg]
+          · simp only [hh, Bool.false_eq_true, if_false, Prod.mk.injEq] at hp
+            rw [← hp.2]
+            simpa using hh
+        · simp only [hsv, Bool.false_eq_true, if_false, Prod.mk.injEq, Option.some.injEq] at hp
+          rw [hp.1] at hsv; exact absurd hs hsv
+    rw [key]
+    simp
 
 end LexVerif.Proof.C11
